@@ -146,6 +146,9 @@ pub fn check(c: &Case, stats: &mut Stats) -> CheckResult {
     if distinct_leaves.len() != c.leaves.len() {
         stats.label("duplicate-leaves");
     }
+    if c.leaves.len() > 30 {
+        stats.label("leaves>30");
+    }
     if c.leaves.contains(&c.root) {
         stats.label("leaf==root");
     }
@@ -177,7 +180,7 @@ pub fn check(c: &Case, stats: &mut Stats) -> CheckResult {
 fn strategy(tier: Tier) -> BoxedStrategy<Case> {
     let max = if tier == Tier::Quick { 18 } else { 50 };
     let cfg = GenCfg::small().terms(2, max).recs(6).standard().with_flags(true).names(NameMode::Capped);
-    (gen::facts(cfg), prop_oneof![2 => Just(None), 3 => any::<u16>().prop_map(Some)], vec((any::<u16>(), 0u8..12), 1..=6))
+    (gen::facts(cfg), prop_oneof![2 => Just(None), 3 => any::<u16>().prop_map(Some)], prop_oneof![19 => vec((any::<u16>(), 0u8..12), 1..=6), 1 => vec((any::<u16>(), 0u8..12), 31..=45)])
         .prop_map(|(facts, root_pick, leaf_picks)| {
             let m = Model::new(&facts);
             let root = match root_pick {
@@ -210,7 +213,7 @@ impl Property for C14 {
         "C14"
     }
     fn rule(&self) -> String {
-        "Generated: source ontologies with HP:0000001/HP:0000118, modifier branches, obsolete/replaced terms and records on phenotype terms, modifier descendants and modifier roots (loaded from own v3 bytes so that modifier roots are defined); root = HP:0000001 or any term; 1-6 leaves from {root} ∪ descendants(root) with duplicates, leaf == root, leaves that are ancestors of other leaves, and (error class) leaves outside root's subtree. Oracle: Err iff some leaf is not root or a descendant of root. Otherwise: root and every leaf present; every retained term satisfies u(leaf,t)+u(t,root) = u(leaf,root) for some leaf (BFS distances on the source facts); names, flags, replacements copied; parent/child/ancestor relations = the source's links induced on the retained set; a record is present iff it is directly annotated to a retained term t with ({t} ∪ ancestors(t)) ∩ modifier roots = ∅, with hpo_terms = direct terms ∩ retained; inheritance, IC (totals = kept records), lookups as in C01-C03 against the reference model of the restricted facts; every leaf reaches root at its original distance. evaluations = sub_ontology calls. Non-trivial = >=2 distinct leaves, a retained modifier term carrying a record, >=1 record dropped (or an error-class request); distinct by hash of the case.".into()
+        "Generated: source ontologies with HP:0000001/HP:0000118, modifier branches, obsolete/replaced terms and records on phenotype terms, modifier descendants and modifier roots (loaded from own v3 bytes so that modifier roots are defined); root = HP:0000001 or any term; 1-6 (one case in 20: 31-45) leaves from {root} ∪ descendants(root) with duplicates, leaf == root, leaves that are ancestors of other leaves, and (error class) leaves outside root's subtree. Oracle: Err iff some leaf is not root or a descendant of root. Otherwise: root and every leaf present; every retained term satisfies u(leaf,t)+u(t,root) = u(leaf,root) for some leaf (BFS distances on the source facts); names, flags, replacements copied; parent/child/ancestor relations = the source's links induced on the retained set; a record is present iff it is directly annotated to a retained term t with ({t} ∪ ancestors(t)) ∩ modifier roots = ∅, with hpo_terms = direct terms ∩ retained; inheritance, IC (totals = kept records), lookups as in C01-C03 against the reference model of the restricted facts; every leaf reaches root at its original distance. evaluations = sub_ontology calls. Non-trivial = >=2 distinct leaves, a retained modifier term carrying a record, >=1 record dropped (or an error-class request); distinct by hash of the case.".into()
     }
     fn assumptions(&self) -> Vec<String> {
         vec![
@@ -225,7 +228,7 @@ impl Property for C14 {
         }
     }
     fn required_labels(&self, _tier: Tier) -> Vec<&'static str> {
-        vec!["nontrivial", "leaf-outside-root-subtree", "duplicate-leaves", "leaf==root", "leaf-is-ancestor-of-leaf", "retained-modifier-term-with-record", "record-only-on-retained-modifier-root", "terms-pruned", "record-dropped"]
+        vec!["nontrivial", "leaves>30", "leaf-outside-root-subtree", "duplicate-leaves", "leaf==root", "leaf-is-ancestor-of-leaf", "retained-modifier-term-with-record", "record-only-on-retained-modifier-root", "terms-pruned", "record-dropped"]
     }
     fn run_generated(&self, tier: Tier, seed: u64, n: u64, stats: &mut Stats) -> Option<(Value, Failure)> {
         run_typed(strategy(tier), seed, n, stats, check)
